@@ -19,6 +19,7 @@ use sos_core::{
     VaultFlags,
 };
 use std::panic::{catch_unwind, AssertUnwindSafe};
+mod folderops;
 mod logops;
 mod reducer;
 mod secrets;
@@ -309,6 +310,7 @@ fn main() {
             if all || ty == "Comparison" { roundtrip!("Comparison", Comparison, gen_comparison, cases, seed); }
         }
         "secret-roundtrip" => { rt().block_on(secrets::run(cases, seed)); }
+        "folder-ops" => { rt().block_on(folderops::run(cases, seed)); }
         "log-ops" => { rt().block_on(logops::run(cases, seed)); }
         "search-index" => { search::run(cases, seed); }
         "tree-compare" => { tree::run(cases); }
